@@ -145,7 +145,7 @@ PROPS['C06'] = dict(
 
 PROPS['C15'] = dict(
     title='Spelling corruption makes one bounded edit and never touches protected positions',
-    groups=[dict(template='c15_providers.rs'), dict(template='c15_edit_word.rs', rlimit=100)],
+    groups=[dict(template='c15_providers.rs'), dict(template='c15_edit_word.rs', rlimit=600)],
     input_search=True,
     claim="corrupt::edit_word (all four arms; the iterator chains desugared by rules R26/R28/R29): never panics on the stated domain and returns EITHER the word and the exclusion set unchanged OR exactly one edit of an ENABLED kind: insert (table offers string t at position i <= n, i and i-1 not excluded; out = chars[..i] + t + chars[i..]; new exclusions = old ones shifted by |t| characters from i on, plus [i, i+|t|)), delete (provider allows position i < n, i not excluded; out = chars[..i] + chars[i+1..]; exclusions above i shifted down by one), replace (table offers t at i < n, i not excluded; out = chars[..i] + t + chars[i+1..]; exclusions above i shifted by |t|-1, plus [i, i+|t|), including the empty replacement), swap (provider allows i, i+1 < n, neither excluded; out = chars[..i] + chars[i+1] + chars[i] + chars[i+2..]; exclusions plus {i, i+1}); |t| is the number of characters of t in the word's own unit (code points or grapheme clusters); in every case the new exclusion set lies within the new word (character level). Providers: InsertEdits/ReplaceEdits::get_edits: no arithmetic fault for every position and word (incl. position 0 and the empty word for insert), the looked-up context is (previous character or <bow>, character or <eow>[, next or <eow>]); DeleteEdits/SwapEdits::can_edit: true only inside the word (and never the last character unless full_delete), for the predicate's verdict on exactly those characters.",
     not_covered=['chains of repeated edits (corrupt_spelling): the chain invariant (exclusions within the word) is the postcondition/precondition pair of edit_word, the loop around it is not a unit',
